@@ -15,7 +15,7 @@ A3 = "A3: a single frame / parameter string is shorter than 2^32 bytes"
 A4 = "A4: fewer than 2^32 fragments per FragmentedMuxer"
 A5 = "A5: fewer than 2^64 frames per muxer (frame counters)"
 SINK = "the sink is environment: std::io::Write::write_all is assumed to append all of the buffer or to fail after a prefix (prelude/sink.vrs); the muxer only ever calls write_all"
-FLOAT = "IEEE-754 doubles are uninterpreted in Verus (prelude/f64.vrs); their arithmetic facts are established by the Kani harnesses k_ticks_nearest (complete) and kb_ticks_monotone / kb_stats_secs (bounded)"
+FLOAT = "IEEE-754 doubles are uninterpreted in Verus (prelude/f64.vrs); their arithmetic facts are decided on the real API functions by the complete Kani harnesses k_api_ticks_video / k_api_ticks_second_frame (all f64 bit patterns), plus k_ticks_nearest (complete) and kb_ticks_monotone / kb_stats_secs (bounded)"
 BOUNDED_LEAVES = ("std models: the iterator-adapter chains of SampleTables::from_samples are rewritten to loops by rule R8 (std semantics of "
                   "iter/map/filter_map/collect assumed) and std's slice sort in compute_interleave_schedule is modelled by its documented postcondition "
                   "(sorted permutation; unit sched); BOUNDED Kani harnesses additionally run the UNMODIFIED functions (from_samples 0..3 samples, "
